@@ -332,7 +332,7 @@ same("C18", "op-residual-two-steps", E + "FEM/Operators/NonLinear.py", '    resi
 mut("C18", "build-de-entry", E + "Models/HyperElastic/_state.py", "Add(3, [0, g02, g01, 0, g12, g11, 0, g22, g21], cM)", "Add(3, [0, g01, g02, 0, g12, g11, 0, g22, g21], cM)", "R18.11")
 mut("C18", "green-lagrange-half", E + "Models/HyperElastic/_state.py", "        E_e_pg = 1 / 2 * (C_e_pg - np.eye(3))", "        E_e_pg = (C_e_pg - np.eye(3))", "R18.11")
 same("C18", "build-de-reorder", E + "Models/HyperElastic/_state.py", "            Add(0, [g00, 0, g10, 0])  # xx\n            Add(1, [0, g01, 0, g11])  # yy\n", "            Add(1, [0, g01, 0, g11])  # yy\n            Add(0, [g00, 0, g10, 0])  # xx\n")
-mut("C19", "jacobian-increment", E + "Models/InElastic/_behavior.py", "                J_e_pg[..., Bi, nz] = -(N_e_pg - component.recall * z_e_pg[..., Bi])", "                J_e_pg[..., Bi, nz] = -(N_e_pg - component.recall * u_e_pg[..., Bi])", "R19.11")
+mut("C19", "jacobian-increment", E + "Models/InElastic/_behavior.py", "                J_e_pg[..., Bi, nz] = -(N_e_pg - component.recall * z_e_pg[..., Bi])", "                J_e_pg[..., Bi, nz] = -(N_e_pg - component.recall * u_e_pg[..., Bi])", "__Jacobian")
 same("C19", "jacobian-rewrite", E + "Models/InElastic/_behavior.py", "                J_e_pg[..., Bi, nz] = -(N_e_pg - component.recall * z_e_pg[..., Bi])", "                J_e_pg[..., Bi, nz] = component.recall * z_e_pg[..., Bi] - N_e_pg")
 mut("C17", "trace-selector-swapped", E + "Models/_phasefield.py", "        Rp_e_pg = (1 + np.sign(trace)) / 2\n        Rm_e_pg = (1 + np.sign(-trace)) / 2", "        Rp_e_pg = (1 + np.sign(-trace)) / 2\n        Rm_e_pg = (1 + np.sign(trace)) / 2", "R17.8")
 
@@ -487,6 +487,9 @@ same("C04", "r7-joint-loop-index", E + "Simulations/_beam.py", "                
 same("C19", "r7-elastic-path-test-form", E + "Models/InElastic/_behavior.py", "        if self.__layout.n == 0:\n            return (\n                self.Compute_sigma(eps6_e_pg, zOld_e_pg),", "        if self.__layout.n < 1:\n            return (\n                self.Compute_sigma(eps6_e_pg, zOld_e_pg),")
 same("C19", "r7-bound-two-statements", E + "Models/InElastic/_behavior.py", "            u = self.__Bound(u - np.linalg.solve(J, r[..., None])[..., 0])\n", "            step = np.linalg.solve(J, r[..., None])[..., 0]\n            u = u - step\n            u = self.__Bound(u)\n")
 mut("C19", "r7-elastic-path-half-tangent", E + "Models/InElastic/_behavior.py", "                self.Compute_sigma(eps6_e_pg, zOld_e_pg),\n                C6_e_pg,\n                zOld_e_pg,", "                self.Compute_sigma(eps6_e_pg, zOld_e_pg),\n                0.5 * C6_e_pg,\n                zOld_e_pg,", "__Integrate_3d")
+
+same("C19", "r7-state-sum-np-add", E + "Models/InElastic/_behavior.py", "        layout = self.__layout\n        nz = layout.n\n        z_e_pg = zOld_e_pg + u_e_pg[..., :nz]\n\n        eel_e_pg", "        layout = self.__layout\n        nz = layout.n\n        z_e_pg = np.add(zOld_e_pg, u_e_pg[..., :nz])\n\n        eel_e_pg")
+mut("C19", "r7-residual-R-at-increment", E + "Models/InElastic/_behavior.py", "            alpha_e_pg = z_e_pg[..., A][..., 0]\n            dG_e_pg = u_e_pg[..., nz]\n", "            alpha_e_pg = u_e_pg[..., A][..., 0]\n            dG_e_pg = u_e_pg[..., nz]\n", "__Residual")
 
 
 def apply_edit(root, e):
